@@ -131,6 +131,8 @@ def build_specs(ctx, workdir):
         (dict(), [("add_metrics", ("desc",), {"z": 3}), ("delete", ("Model description",), {})]),
         (dict(template=None), []),
         (dict(), [("add_table", (), {"T": {"a": [1, 2], "b": ["x", "y"]}}), ("select", ("Model description",), {})]),
+        (dict(template=None), [("add_table", (), {"Ragged": {"fold": [1, 2, 3], "score": [0.5]}})]),          # cannot be rendered
+        (dict(template=None), [("add_table", (), {"After": {"name": ["p", "q"], "alpha": [0.1, 0.2]}}), ("add_table", (), {"Again": {"k": [1, 2]}})]),
     ]
     for i, (kw, calls) in enumerate(real):
         specs.append(("card-real", kw, calls)); names.append(f"card-real:{i}")
